@@ -202,6 +202,22 @@ def nullable_body_case(rng):
         prods.append([2 + i, [["T", 1 + i]]])
         if rng.random() < 0.85:
             prods.append([2 + i, []])
+    if rng.random() < 0.45:
+        # indirect nullability: a component is nullable only through a chain of unit productions
+        i = rng.randrange(k)
+        v = 2 + i
+        if [v, []] in prods:
+            prods.remove([v, []])
+            chain = rng.randint(1, 2)
+            cur = v
+            for j in range(chain):
+                nxt = nv
+                nv += 1
+                prods.append([cur, [["V", nxt]]])
+                cur = nxt
+            prods.append([cur, []])
+            if rng.random() < 0.5:
+                prods.append([cur, [["T", nt - 1]]])
     if rng.random() < 0.3:
         # left recursion behind / through nullable variables: A -> A t,  or a component that recurses on itself
         v = rng.choice([1] + [2 + i for i in range(k)])
@@ -218,10 +234,35 @@ def nullable_body_case(rng):
     return {"nv": nv, "nt": nt, "start": 0, "prods": prods, "vc": "str"}
 
 
+def nullable_tail_case(rng):
+    """S -> t A (B) ; A -> A1 ; A1 -> A2 ; A2 -> eps | u : the input ends while variables that vanish only through a
+    chain of unit productions are still to be expanded"""
+    k = rng.randint(1, 2)
+    prods = []
+    nv = 1 + k
+    nt = 1 + k
+    head = [["T", 0]] if rng.random() < 0.7 else []
+    prods.append([0, head + [["V", 1 + i] for i in range(k)]])
+    for i in range(k):
+        cur = 1 + i
+        for j in range(rng.randint(0, 3)):
+            prods.append([cur, [["V", nv]]])
+            cur = nv
+            nv += 1
+        prods.append([cur, []])
+        if rng.random() < 0.7:
+            prods.append([cur, [["T", 1 + i]]])
+    if rng.random() < 0.2:
+        prods.append([0, [["T", nt - 1], ["V", 0]]])
+    return {"nv": nv, "nt": nt, "start": 0, "prods": prods, "vc": rng.choice(["str", "lower"])}
+
+
 def plan(tier, rng, sl, nslices, stats):
     cfg = TIERS[tier]
     for i in range(cfg["random"]):
-        if i % 5 == 4:
+        if i % 10 == 9:
+            yield nullable_tail_case(rng)
+        elif i % 5 == 4:
             yield nullable_body_case(rng)
         elif i % 2:
             yield ll1_biased(rng)
